@@ -22,7 +22,9 @@ LEVEL = "model_checking"
 def cells_chunk(task):
     N, m, bx, a, b = task["N"], task["m"], task["box"], task["a"], task["b"]
     lo, up = box(bx, N)
-    ev = Evolvent(lo, up, N, m)
+    ev = curve.make_ev(N, m, bx, task.get("via"))
+    if task.get("via"):
+        bx = f"{bx} (set with SetBounds on an evolvent built for {task['via']})"
     n = 2 ** (N * m)
     lo_a, up_a = np.array(lo), np.array(up)
     side = up_a - lo_a
@@ -203,12 +205,18 @@ def run(ctx):
             step = max(256, n // 32)
             for a in range(0, n, step):
                 tasks.append(dict(N=N, m=m, box=bx, a=a, b=min(n, a + step)))
+    # the same exhaustive cell enumeration with the box configured through SetBounds (every ordered pair of boxes)
+    for (N, m) in [c for c in curve.small_configs(8 if not th else 10)]:
+        n = 2 ** (N * m)
+        for via, bx in curve.VIA_PAIRS:
+            tasks.append(dict(N=N, m=m, box=bx, via=via, a=0, b=n))
     tasks.sort(key=lambda t: -(t["b"] - t["a"]) * t["m"])
     out = pmap(cells_chunk, tasks)
     groups = {}
     ncells = 0
     for t, (flat, msgs, last) in zip(tasks, out):
-        g = groups.setdefault((t["N"], t["m"], t["box"]), dict(flat=[], last=None, lastcell=None))
+        g = groups.setdefault((t["N"], t["m"], t["box"] + ("<-" + t["via"] if t.get("via") else "")),
+                              dict(flat=[], last=None, lastcell=None))
         g["flat"] += flat
         ncells += len(flat)
         if last is not None:
@@ -216,8 +224,11 @@ def run(ctx):
         if t["b"] == 2 ** (t["N"] * t["m"]) and flat:
             g["lastcell"] = flat[-1]
         for msg in msgs:
-            res.add_violation(dict(driver="cells", N=t["N"], m=t["m"], box=t["box"], a=t["a"], b=t["b"], message=msg, sig={}))
-    for (N, m, bx), g in groups.items():
+            res.add_violation(dict(driver="cells", N=t["N"], m=t["m"], box=t["box"], via=t.get("via"), a=t["a"], b=t["b"],
+                                   message=msg, sig={}))
+    for (N, m, bxv), g in groups.items():
+        bx, _, via = bxv.partition("<-")
+        via = via or None
         n = 2 ** (N * m)
         fl = [f for f in g["flat"] if f >= 0]
         if len(set(fl)) != len(fl):
@@ -227,14 +238,14 @@ def run(ctx):
                     dup = f
                     break
                 seen.add(f)
-            res.add_violation(dict(driver="bijection", N=N, m=m, box=bx,
-                                   message=f"N={N} m={m} box={bx}: two subintervals map to the same cell (flat index {dup})", sig={}))
+            res.add_violation(dict(driver="bijection", N=N, m=m, box=bx, via=via,
+                                   message=f"N={N} m={m} box={bxv}: two subintervals map to the same cell (flat index {dup})", sig={}))
         elif len(fl) == n and set(fl) != set(range(n)):
-            res.add_violation(dict(driver="bijection", N=N, m=m, box=bx,
-                                   message=f"N={N} m={m} box={bx}: not every grid cell is reached", sig={}))
+            res.add_violation(dict(driver="bijection", N=N, m=m, box=bx, via=via,
+                                   message=f"N={N} m={m} box={bxv}: not every grid cell is reached", sig={}))
         if g["last"] is None or g["last"] != g["lastcell"]:
-            res.add_violation(dict(driver="bijection", N=N, m=m, box=bx,
-                                   message=f"N={N} m={m} box={bx}: x=1 does not map to the cell of the last subinterval", sig={}))
+            res.add_violation(dict(driver="bijection", N=N, m=m, box=bx, via=via,
+                                   message=f"N={N} m={m} box={bxv}: x=1 does not map to the cell of the last subinterval", sig={}))
     # N = 1
     n1 = 0
     for bx, (k, msgs) in zip(BOXES, pmap(n1_task, list(BOXES))):
@@ -311,7 +322,7 @@ def replay(rec):
     if d == "bijection":
         N, m, bx = rec["N"], rec["m"], rec["box"]
         n = 2 ** (N * m)
-        flat, msgs, last = cells_chunk(dict(N=N, m=m, box=bx, a=0, b=n))
+        flat, msgs, last = cells_chunk(dict(N=N, m=m, box=bx, via=rec.get("via"), a=0, b=n))
         out = list(msgs)
         if len(set(flat)) != n:
             out.append("map subinterval -> cell is not a bijection")
